@@ -90,11 +90,11 @@ LEAF_EXACT = '[leaf_text_exact C10 C08] r@ == txt({n}.text_s())'
 VERBATIM = '[verbatim_when_disabled C07] self.store_s().disabled_s({n}.span_s()) ==> r@ == txt({n}.full_text_s())'
 ROUTE = '[marked_expression_is_emitted_verbatim C07] self.store_s().disabled_s({n}.span_s()) && ast::expr_kind({n}.kind_s()) ==> r@ == txt({n}.full_text_s())'
 EXTRA = {
-    'convert_destructuring': {'closures': [
+    'convert_destructuring': {'serves': 'C01', 'closures': [
         '@replace ".print_doc(ListStyle {" => ".print_doc({ let vp_sty = ListStyle {" rule R30',
         '@replace "add_trailing_sep_single: only_one_pattern,\\n                ..Default::default()\\n            })" => "add_trailing_sep_single: only_one_pattern,\\n                ..Default::default()\\n            }; proof { assert(vp_sty.add_trailing_sep_single == only_one_pattern && !vp_sty.tight_delim && vp_sty.separator@ == \\",\\"@); } vp_sty })" rule R30',
         '@note [a_single_pattern_keeps_its_comma C01] the style handed to the list engine asks for the trailing separator exactly when the destructuring is one pattern (`(a,)` is not `(a)`); the engine clause is ListStylist::print_doc#ensures.single_item_keeps_its_separator']},
-    'convert_array': {'closures': [
+    'convert_array': {'serves': 'C01 C09', 'closures': [
         '@replace ".print_doc(ListStyle {" => ".print_doc({ let vp_sty = ListStyle {" rule R30',
         '@replace "no_indent: !is_explicit,\\n                ..Default::default()\\n            })" => "no_indent: !is_explicit,\\n                ..Default::default()\\n            }; proof { assert(is_explicit ==> vp_sty.add_trailing_sep_single && !vp_sty.tight_delim && vp_sty.separator@ == \\",\\"@); assert(!is_explicit ==> vp_sty.add_trailing_sep_always == ends_with_comma); } vp_sty })" rule R30',
         '@note [a_one_element_array_keeps_its_comma C01] `(1,)` is not `(1)`; [a_math_row_keeps_its_trailing_comma C01 C09]; the engine clause is ListStylist::print_doc#ensures.single_item_keeps_its_separator',
